@@ -1,7 +1,10 @@
 //! C08: observe the calls `Parser::lr` / `lr_upto` make to the production actions.
 //! case:   `<kind> <hexsrc> <rec: 0|1> ; name@s-e name@s-e … ; …`     (one parse per `;` group)
+//!         a lexeme written `name@s-e!` is handed to the parser as a LEXER-SUPPLIED faulty lexeme
+//!         (`Lexeme::new_faulty`: public API, a lexer doing its own error handling may produce them)
 //! result: `<grammar dump> # <automaton dump> # X… ` then per usable input
 //!   ` # IN <tok> <s> <e> …`           the lexemes (token index, byte span)
+//!   ` # FM <0|1>…`                    (only when some input lexeme is faulty) one digit per lexeme: its faulty flag
 //!   ` # OA <outcome>`                 parse_actions: `acc <k>` | `none` | `panic <msg>`
 //!   ` # L <k> <pidx> <ridx> <s> <e> <param> <arg>*`   one per action call, in call order;
 //!        <arg> = `l:<tok>:<s>:<e>:<0|1 faulty>` | `v:<k>` (value returned by call k)
@@ -115,10 +118,10 @@ fn pp_errors(o: &mut String, tag: &str, errs: &[LexParseError<u32, LT>]) {
     }
 }
 
-fn one_input(o: &mut String, b: &Built, toks: &[u32], spans: &[(usize, usize)], rk: RecoveryKind) {
+fn one_input(o: &mut String, b: &Built, toks: &[u32], spans: &[(usize, usize)], faulty: &[bool], rk: RecoveryKind) {
     // ---- parse_actions with one recording closure per production
     let log: RefCell<Vec<Call>> = RefCell::new(Vec::new());
-    let lexer = ReplayLexer::with_spans(toks.to_vec(), spans.to_vec());
+    let lexer = ReplayLexer::with_spans(toks.to_vec(), spans.to_vec()).with_faulty(faulty.to_vec());
     let r = catch(std::panic::AssertUnwindSafe(|| {
         let boxed: Vec<Act> = (0..usize::from(b.grm.prods_len())).map(mk_action).collect();
         let actions: Vec<&ActDyn> = boxed.iter().map(|x| &**x).collect();
@@ -149,7 +152,7 @@ fn one_input(o: &mut String, b: &Built, toks: &[u32], spans: &[(usize, usize)], 
         }
     }
     // ---- the generic tree through parse_map on the same lexemes
-    let lexer = ReplayLexer::with_spans(toks.to_vec(), spans.to_vec());
+    let lexer = ReplayLexer::with_spans(toks.to_vec(), spans.to_vec()).with_faulty(faulty.to_vec());
     let r = catch(std::panic::AssertUnwindSafe(|| {
         let pb = RTParserBuilder::<u32, LT>::new(&b.grm, &b.st).recoverer(rk);
         pb.parse_map(&lexer, &|l: Lx| term(l), &|ridx, nodes| T2::Nonterm(u32::from(ridx), nodes))
@@ -193,6 +196,7 @@ fn main() {
         for inp in parts {
             let mut toks: Vec<u32> = Vec::new();
             let mut spans: Vec<(usize, usize)> = Vec::new();
+            let mut faulty: Vec<bool> = Vec::new();
             let mut ok = true;
             for w in inp.split_whitespace() {
                 let (n, sp) = match w.rsplit_once('@') {
@@ -201,6 +205,10 @@ fn main() {
                         ok = false;
                         continue;
                     }
+                };
+                let (sp, flt) = match sp.strip_suffix('!') {
+                    Some(x) => (x, true),
+                    None => (sp, false),
                 };
                 let (s, e) = match sp.split_once('-') {
                     Some((s, e)) => (s.parse::<usize>().unwrap_or(0), e.parse::<usize>().unwrap_or(0)),
@@ -216,6 +224,7 @@ fn main() {
                     Some(t) if t != b.grm.eof_token_idx() => {
                         toks.push(u32::from(t));
                         spans.push((s, e));
+                        faulty.push(flt);
                     }
                     _ => ok = false,
                 }
@@ -227,7 +236,13 @@ fn main() {
             for (t, (s, e)) in toks.iter().zip(spans.iter()) {
                 write!(o, " {} {} {}", t, s, e).unwrap();
             }
-            one_input(&mut o, &b, &toks, &spans, if rec { RecoveryKind::CPCTPlus } else { RecoveryKind::None });
+            if faulty.iter().any(|f| *f) {
+                o.push_str(" # FM ");
+                for f in &faulty {
+                    o.push(if *f { '1' } else { '0' });
+                }
+            }
+            one_input(&mut o, &b, &toks, &spans, &faulty, if rec { RecoveryKind::CPCTPlus } else { RecoveryKind::None });
         }
         o
     });
